@@ -108,11 +108,12 @@ package bridgesync
 //@   props C20
 //@   requires c != nil && c.GlobalIndex != nil && len(data) >= 11
 //@   requires typeIs(data[2], *big.Int) ==> cast(data[2], *big.Int) != nil
-//@   modifies *c
+//@   modifies c.ProofLocalExitRoot, c.ProofRollupExitRoot, c.MainnetExitRoot, c.RollupExitRoot, c.DestinationNetwork, c.Metadata, c.GlobalExitRoot, c.FromAddress, c.IsMessage
 //@   ensures[only-the-matching-index] result0 ==> typeIs(data[2], *big.Int) && bigval(cast(data[2], *big.Int)) == bigval(c.GlobalIndex)
 //@   ensures[other-index-leaves-claim-untouched] (typeIs(data[2], *big.Int) && bigval(cast(data[2], *big.Int)) != old(bigval(c.GlobalIndex))) ==> !result0 && result1 == nil && *c == old(*c)
 //@   ensures[error-means-not-found] result1 != nil ==> !result0
 //@   ensures[index-untouched] c.GlobalIndex == old(c.GlobalIndex)
+//@   ensures[what-the-event-said-is-untouched] c.BlockNum == old(c.BlockNum) && c.BlockPos == old(c.BlockPos) && c.OriginNetwork == old(c.OriginNetwork) && c.OriginAddress == old(c.OriginAddress) && c.DestinationAddress == old(c.DestinationAddress) && c.Amount == old(c.Amount) && c.TxHash == old(c.TxHash) && c.BlockTimestamp == old(c.BlockTimestamp) && c.IsMessage == old(c.IsMessage)
 //@   ensures[details-of-that-call] result0 ==> c.MainnetExitRoot == hashOf(unbox(data[3], [32]byte)) && c.RollupExitRoot == hashOf(unbox(data[4], [32]byte)) && c.DestinationNetwork == unbox(data[7], uint32) && c.Metadata == unbox(data[10], []byte) && c.FromAddress == senderAddr && c.GlobalExitRoot == H(c.MainnetExitRoot, c.RollupExitRoot)
 //@   ensures[proofs-of-that-call] result0 ==> forall(k, 0, 32, c.ProofLocalExitRoot[k] == hashOf(unbox(data[0], [32][32]byte)[k]) && c.ProofRollupExitRoot[k] == hashOf(unbox(data[1], [32][32]byte)[k]))
 //@   loop 0 unroll 32
@@ -120,11 +121,12 @@ package bridgesync
 //@ func (c *Claim) decodePreEtrogCalldata
 //@   props C20
 //@   requires c != nil && c.GlobalIndex != nil && len(data) >= 10
-//@   modifies *c
+//@   modifies c.ProofLocalExitRoot, c.ProofRollupExitRoot, c.MainnetExitRoot, c.RollupExitRoot, c.DestinationNetwork, c.Metadata, c.GlobalExitRoot, c.FromAddress, c.IsMessage
 //@   ensures[only-the-matching-index] result0 ==> typeIs(data[1], uint32) && unbox(data[1], uint32) == bigval(c.GlobalIndex)
 //@   ensures[other-index-leaves-claim-untouched] (typeIs(data[1], uint32) && unbox(data[1], uint32) != old(bigval(c.GlobalIndex))) ==> !result0 && result1 == nil && *c == old(*c)
 //@   ensures[error-means-not-found] result1 != nil ==> !result0
 //@   ensures[index-untouched] c.GlobalIndex == old(c.GlobalIndex)
+//@   ensures[what-the-event-said-is-untouched] c.BlockNum == old(c.BlockNum) && c.BlockPos == old(c.BlockPos) && c.OriginNetwork == old(c.OriginNetwork) && c.OriginAddress == old(c.OriginAddress) && c.DestinationAddress == old(c.DestinationAddress) && c.Amount == old(c.Amount) && c.TxHash == old(c.TxHash) && c.BlockTimestamp == old(c.BlockTimestamp) && c.IsMessage == old(c.IsMessage)
 //@   ensures[details-of-that-call] result0 ==> c.MainnetExitRoot == hashOf(unbox(data[2], [32]byte)) && c.RollupExitRoot == hashOf(unbox(data[3], [32]byte)) && c.DestinationNetwork == unbox(data[6], uint32) && c.Metadata == unbox(data[9], []byte) && c.FromAddress == senderAddr && c.GlobalExitRoot == H(c.MainnetExitRoot, c.RollupExitRoot)
 //@   ensures[proof-of-that-call] result0 ==> forall(k, 0, 32, c.ProofLocalExitRoot[k] == hashOf(unbox(data[0], [32][32]byte)[k]))
 //@   loop 0 unroll 32
@@ -146,10 +148,13 @@ package bridgesync
 //@   requires s != nil
 //@   ensures result == stkLen(s)
 
+// the callback handed to the search is the claim decoder (or none): it writes only the calldata-derived fields of claims
+//@ interface functype:func(github.com/agglayer/aggkit/bridgesync.call)(bool,error)@bridgesync.findCall (c)
+//@   modifies region("bridgesync.Claim.ProofLocalExitRoot"), region("bridgesync.Claim.ProofRollupExitRoot"), region("bridgesync.Claim.MainnetExitRoot"), region("bridgesync.Claim.RollupExitRoot"), region("bridgesync.Claim.DestinationNetwork"), region("bridgesync.Claim.Metadata"), region("bridgesync.Claim.GlobalExitRoot"), region("bridgesync.Claim.FromAddress"), region("bridgesync.Claim.IsMessage")
 //@ func findCall
 //@   props C20
 //@   requires logger != nil
-//@   modifies heap
+//@   modifies region("bridgesync.Claim.ProofLocalExitRoot"), region("bridgesync.Claim.ProofRollupExitRoot"), region("bridgesync.Claim.MainnetExitRoot"), region("bridgesync.Claim.RollupExitRoot"), region("bridgesync.Claim.DestinationNetwork"), region("bridgesync.Claim.Metadata"), region("bridgesync.Claim.GlobalExitRoot"), region("bridgesync.Claim.FromAddress"), region("bridgesync.Claim.IsMessage")
 //@   ensures[found-is-a-live-call-to-the-bridge] result1 == nil ==> result0 != nil && result0.Err == nil && result0.To == targetAddr
 //@   ensures[error-means-nothing] result1 != nil ==> result0 == nil
 // a call is put on the stack only as a child of a frame that did not revert, and only if it did not revert itself:
@@ -177,3 +182,93 @@ package bridgesync
 //@   props C02 C03
 //@   trusted
 //@   consttext "claim"
+
+// ---- decoding a watched log into an event of the block (C01, C03, C05): exactly one event is added per log, and the
+// bridge / claim record carries the block's number, the log's position and, field by field, what the contract binding
+// decoded from the log (assumed, A4: the generated binding decodes the ABI event; parsedBridge / parsedClaim observe
+// its answer). A failed decode adds nothing.
+//@ ghost var parsedBridge *polygonzkevmbridgev2.Polygonzkevmbridgev2BridgeEvent
+//@ ghost var parsedClaim *polygonzkevmbridgev2.Polygonzkevmbridgev2ClaimEvent
+//@ extern (*github.com/0xPolygon/cdk-contracts-tooling/contracts/pp/l2-sovereign-chain/polygonzkevmbridgev2.Polygonzkevmbridgev2Filterer).ParseBridgeEvent (f, log)
+//@   modifies parsedBridge
+//@   ensures result1 != nil ==> result0 == nil
+//@   ensures result1 == nil ==> result0 != nil && parsedBridge == result0
+//@ extern (*github.com/0xPolygon/cdk-contracts-tooling/contracts/pp/l2-sovereign-chain/polygonzkevmbridgev2.Polygonzkevmbridgev2Filterer).ParseClaimEvent (f, log)
+//@   modifies parsedClaim
+//@   ensures result1 != nil ==> result0 == nil
+//@   ensures result1 == nil ==> result0 != nil && parsedClaim == result0 && result0.GlobalIndex != nil
+//@ func extractCall
+//@   trusted
+//@   modifies nothing
+//@   ensures result1 != nil ==> result0 == nil
+//@   ensures result1 == nil ==> result0 != nil
+
+//@ func buildBridgeEventHandler$1
+//@   props C01 C03 C05
+//@   requires b != nil && contract != nil
+//@   modifies b.Events, parsedBridge
+//@   ensures[failed-decode-adds-nothing] result != nil ==> len(b.Events) == old(len(b.Events))
+//@   ensures[one-event-per-log] result == nil ==> len(b.Events) == old(len(b.Events)) + 1 && forall(k, 0, old(len(b.Events)), b.Events[k] == old(b.Events[k]))
+//@   ensures[the-bridge-is-the-decoded-event-at-the-logs-position] result == nil ==> typeIs(b.Events[len(b.Events) - 1], Event) && unbox(b.Events[len(b.Events) - 1], Event).Bridge != nil && unbox(b.Events[len(b.Events) - 1], Event).Claim == nil && unbox(b.Events[len(b.Events) - 1], Event).Bridge.BlockNum == b.Num && unbox(b.Events[len(b.Events) - 1], Event).Bridge.BlockPos == l.Index && unbox(b.Events[len(b.Events) - 1], Event).Bridge.LeafType == parsedBridge.LeafType && unbox(b.Events[len(b.Events) - 1], Event).Bridge.OriginNetwork == parsedBridge.OriginNetwork && unbox(b.Events[len(b.Events) - 1], Event).Bridge.OriginAddress == parsedBridge.OriginAddress && unbox(b.Events[len(b.Events) - 1], Event).Bridge.DestinationNetwork == parsedBridge.DestinationNetwork && unbox(b.Events[len(b.Events) - 1], Event).Bridge.DestinationAddress == parsedBridge.DestinationAddress && unbox(b.Events[len(b.Events) - 1], Event).Bridge.Amount == parsedBridge.Amount && unbox(b.Events[len(b.Events) - 1], Event).Bridge.Metadata == parsedBridge.Metadata && unbox(b.Events[len(b.Events) - 1], Event).Bridge.DepositCount == parsedBridge.DepositCount && unbox(b.Events[len(b.Events) - 1], Event).Bridge.TxHash == l.TxHash
+
+//@ func buildClaimEventHandler$1
+//@   props C03 C05 C20
+//@   requires b != nil && contract != nil && (syncFullClaims ==> client != nil && logger != nil)
+//@   modifies b.Events, parsedClaim, region("bridgesync.Claim.ProofLocalExitRoot"), region("bridgesync.Claim.ProofRollupExitRoot"), region("bridgesync.Claim.MainnetExitRoot"), region("bridgesync.Claim.RollupExitRoot"), region("bridgesync.Claim.DestinationNetwork"), region("bridgesync.Claim.Metadata"), region("bridgesync.Claim.GlobalExitRoot"), region("bridgesync.Claim.FromAddress"), region("bridgesync.Claim.IsMessage")
+//@   ensures[failed-decode-adds-nothing] result != nil ==> len(b.Events) == old(len(b.Events))
+//@   ensures[one-event-per-log] result == nil ==> len(b.Events) == old(len(b.Events)) + 1 && forall(k, 0, old(len(b.Events)), b.Events[k] == old(b.Events[k]))
+//@   ensures[the-claim-is-the-decoded-event-at-the-logs-position] result == nil ==> typeIs(b.Events[len(b.Events) - 1], Event) && unbox(b.Events[len(b.Events) - 1], Event).Claim != nil && unbox(b.Events[len(b.Events) - 1], Event).Bridge == nil && unbox(b.Events[len(b.Events) - 1], Event).Claim.BlockNum == b.Num && unbox(b.Events[len(b.Events) - 1], Event).Claim.BlockPos == l.Index && unbox(b.Events[len(b.Events) - 1], Event).Claim.GlobalIndex == parsedClaim.GlobalIndex && unbox(b.Events[len(b.Events) - 1], Event).Claim.OriginNetwork == parsedClaim.OriginNetwork && unbox(b.Events[len(b.Events) - 1], Event).Claim.OriginAddress == parsedClaim.OriginAddress && unbox(b.Events[len(b.Events) - 1], Event).Claim.DestinationAddress == parsedClaim.DestinationAddress && unbox(b.Events[len(b.Events) - 1], Event).Claim.Amount == parsedClaim.Amount && unbox(b.Events[len(b.Events) - 1], Event).Claim.TxHash == l.TxHash
+
+// ---- choosing the decoder by the call's selector (C20, C03): only the four claim selectors are accepted; the two
+// post-Etrog selectors go to the post-Etrog decoder and the two pre-Etrog ones to the pre-Etrog decoder (site
+// assertions); on acceptance the message flag says whether the selector was a claimMessage one; what the event said
+// about the claim is never overwritten. Assumed (A4): the four selector variables hold four distinct 4-byte strings, set
+// once at package initialisation (selBytes(i)); the ABI unpacker returns the method's arguments (at least 11 / 10).
+//@ spec fn selBytes(i int) []byte
+//@ constglobal claimAssetEtrogMethodID len 4 content selBytes(1)
+//@ constglobal claimMessageEtrogMethodID len 4 content selBytes(2)
+//@ constglobal claimAssetPreEtrogMethodID len 4 content selBytes(3)
+//@ constglobal claimMessagePreEtrogMethodID len 4 content selBytes(4)
+//@ axiom selectorsDistinct(i int, j int) : (1 <= i && i < j && j <= 4) ==> bytesOf(selBytes(i), 4) != bytesOf(selBytes(j), 4) @trigger bytesOf(selBytes(i), 4), bytesOf(selBytes(j), 4)
+//@ extern (*github.com/ethereum/go-ethereum/accounts/abi/bind.MetaData).GetAbi (m)
+//@   modifies nothing
+//@   ensures result1 == nil ==> result0 != nil
+//@ extern (*github.com/ethereum/go-ethereum/accounts/abi.ABI).MethodById (a, sigdata)
+//@   modifies nothing
+//@   ensures result1 == nil ==> result0 != nil
+//@ extern (github.com/ethereum/go-ethereum/accounts/abi.Arguments).Unpack (a, data)
+//@   modifies nothing
+//@   ensures result1 == nil ==> len(result0) >= 11 && off(result0) == 0 && (typeIs(result0[2], *big.Int) ==> cast(result0[2], *big.Int) != nil)
+
+//@ func (c *Claim) tryDecodeClaimCalldata
+//@   props C20 C03
+//@   requires c != nil && c.GlobalIndex != nil
+//@   modifies c.ProofLocalExitRoot, c.ProofRollupExitRoot, c.MainnetExitRoot, c.RollupExitRoot, c.DestinationNetwork, c.Metadata, c.GlobalExitRoot, c.FromAddress, c.IsMessage
+//@   assert call:decodeEtrogCalldata len(input) >= 4 && (bytesOf(seq(input), 4) == bytesOf(selBytes(1), 4) || bytesOf(seq(input), 4) == bytesOf(selBytes(2), 4))
+//@   assert call:decodePreEtrogCalldata len(input) >= 4 && (bytesOf(seq(input), 4) == bytesOf(selBytes(3), 4) || bytesOf(seq(input), 4) == bytesOf(selBytes(4), 4))
+//@   ensures[short-input-refused] len(input) < 4 ==> result1 != nil && !result0 && *c == old(*c)
+//@   ensures[other-selectors-refused] (len(input) >= 4 && bytesOf(seq(input), 4) != bytesOf(selBytes(1), 4) && bytesOf(seq(input), 4) != bytesOf(selBytes(2), 4) && bytesOf(seq(input), 4) != bytesOf(selBytes(3), 4) && bytesOf(seq(input), 4) != bytesOf(selBytes(4), 4)) ==> result1 != nil && !result0 && *c == old(*c)
+//@   ensures[error-means-not-found] result1 != nil ==> !result0
+//@   ensures[message-flag-from-the-selector] result0 ==> c.IsMessage == (bytesOf(seq(input), 4) == bytesOf(selBytes(2), 4) || bytesOf(seq(input), 4) == bytesOf(selBytes(4), 4))
+//@   ensures[not-found-keeps-the-flag] !result0 ==> c.IsMessage == old(c.IsMessage)
+//@   ensures[what-the-event-said-is-untouched] c.GlobalIndex == old(c.GlobalIndex) && c.BlockNum == old(c.BlockNum) && c.BlockPos == old(c.BlockPos) && c.OriginNetwork == old(c.OriginNetwork) && c.OriginAddress == old(c.OriginAddress) && c.DestinationAddress == old(c.DestinationAddress) && c.Amount == old(c.Amount) && c.TxHash == old(c.TxHash) && c.BlockTimestamp == old(c.BlockTimestamp)
+
+// the callback of the search (the only one in the module): reverted frames are skipped without looking at them
+//@ func (c *Claim) setClaimCalldata$1
+//@   props C20
+//@   requires c != nil && c.GlobalIndex != nil
+//@   modifies c.ProofLocalExitRoot, c.ProofRollupExitRoot, c.MainnetExitRoot, c.RollupExitRoot, c.DestinationNetwork, c.Metadata, c.GlobalExitRoot, c.FromAddress, c.IsMessage
+//@   ensures[reverted-frames-are-skipped] call.Err != nil ==> !result0 && result1 == nil && *c == old(*c)
+//@   ensures[error-means-not-found] result1 != nil ==> !result0
+//@   ensures[what-the-event-said-is-untouched] c.GlobalIndex == old(c.GlobalIndex) && c.BlockNum == old(c.BlockNum) && c.BlockPos == old(c.BlockPos) && c.OriginNetwork == old(c.OriginNetwork) && c.OriginAddress == old(c.OriginAddress) && c.DestinationAddress == old(c.DestinationAddress) && c.Amount == old(c.Amount) && c.TxHash == old(c.TxHash)
+
+// tracing the claim transaction (C20): the trace comes from the node (assumed, A8: the RPC call fills the frame it is
+// given and nothing else), a reverted root is refused, and the search may only fill in calldata-derived fields
+//@ interface github.com/agglayer/aggkit/types.RPCClienter.Call (self, result, method, args)
+//@   requires typeIs(result, *call) && cast(result, *call) != nil
+//@   modifies cast(result, *call).From, cast(result, *call).To, cast(result, *call).Value, cast(result, *call).Err, cast(result, *call).Input, cast(result, *call).Calls
+//@ func (c *Claim) setClaimCalldata
+//@   props C20 C03
+//@   requires c != nil && c.GlobalIndex != nil && client != nil && logger != nil
+//@   modifies region("bridgesync.Claim.ProofLocalExitRoot"), region("bridgesync.Claim.ProofRollupExitRoot"), region("bridgesync.Claim.MainnetExitRoot"), region("bridgesync.Claim.RollupExitRoot"), region("bridgesync.Claim.DestinationNetwork"), region("bridgesync.Claim.Metadata"), region("bridgesync.Claim.GlobalExitRoot"), region("bridgesync.Claim.FromAddress"), region("bridgesync.Claim.IsMessage")
+//@   ensures[what-the-event-said-is-untouched] c.GlobalIndex == old(c.GlobalIndex) && c.BlockNum == old(c.BlockNum) && c.BlockPos == old(c.BlockPos) && c.OriginNetwork == old(c.OriginNetwork) && c.OriginAddress == old(c.OriginAddress) && c.DestinationAddress == old(c.DestinationAddress) && c.Amount == old(c.Amount) && c.TxHash == old(c.TxHash)
